@@ -46,6 +46,7 @@ class Symbolizer:
 def fanout(exe, seed, total, tier, outdir, budget_s, nworkers=None, extra=()):
     """run `exe worker seed first count tier outdir budget` on nworkers processes; yield parsed lines"""
     nworkers = nworkers or NWORKERS
+    exes = exe if isinstance(exe, (list, tuple)) else [exe]
     os.makedirs(outdir, exist_ok=True)
     per = (total + nworkers - 1) // nworkers
     procs = []
@@ -55,7 +56,7 @@ def fanout(exe, seed, total, tier, outdir, budget_s, nworkers=None, extra=()):
         if cnt <= 0:
             break
         log = open(os.path.join(outdir, "worker-%d.out" % w), "w")
-        p = subprocess.Popen([exe, "worker", str(seed), str(first), str(cnt), tier, outdir, str(budget_s)] + list(extra),
+        p = subprocess.Popen([exes[w % len(exes)], "worker", str(seed), str(first), str(cnt), tier, outdir, str(budget_s)] + list(extra),
                              stdout=log, stderr=subprocess.STDOUT)
         procs.append((w, first, cnt, p, log))
     lines, crashes = [], []
@@ -66,7 +67,7 @@ def fanout(exe, seed, total, tier, outdir, budget_s, nworkers=None, extra=()):
             wl = [l.rstrip("\n") for l in f]
         lines += [(w, l) for l in wl]
         if rc != 0:
-            crashes.append(dict(worker=w, first=first, count=cnt, rc=rc, tail=wl[-30:],
+            crashes.append(dict(worker=w, exe=exes[w % len(exes)], first=first, count=cnt, rc=rc, tail=wl[-30:],
                                 cur=os.path.join(outdir, "cur-%d.prog" % first)))
     return lines, crashes
 
